@@ -337,6 +337,9 @@ func main() {
 	}
 	// known findings
 	replayDir := filepath.Join(*verifDir, "replays")
+	if *repo != "/repo" {
+		replayDir = filepath.Join(*repo, "_replays")
+	}
 	os.MkdirAll(replayDir, 0o755)
 	exit := 0
 	knownReported := map[*KnownFinding]bool{}
@@ -482,9 +485,13 @@ func main() {
 			"wall_s":      time.Since(t0).Seconds(),
 			"violations":  len(realViolations),
 		}
-		os.MkdirAll(filepath.Join(*verifDir, "evidence"), 0o755)
-		data, _ := json.MarshalIndent(ev, "", " ")
-		os.WriteFile(filepath.Join(*verifDir, "evidence", *prop+".json"), data, 0o644)
+		// trial runs on a scratch copy of the repository (tools/trypatch.sh) must not overwrite the evidence
+		// of the real tree or its replay files
+		if *repo == "/repo" {
+			os.MkdirAll(filepath.Join(*verifDir, "evidence"), 0o755)
+			data, _ := json.MarshalIndent(ev, "", " ")
+			os.WriteFile(filepath.Join(*verifDir, "evidence", *prop+".json"), data, 0o644)
+		}
 	}
 	fmt.Fprintf(os.Stderr, "%s: %d functions, %d obligations, %d discharged, %d queries, gen %.1fs, total %.1fs\n", *prop, len(keys), nObl, nDis, nQueries, tGen.Seconds(), time.Since(t0).Seconds())
 	os.Exit(exit)
